@@ -178,6 +178,18 @@ func Eq(a, b Term) Term {
 	if a.Sort != b.Sort {
 		panic(fmt.Sprintf("Eq sort mismatch: %s:%s vs %s:%s", a.S, a.Sort, b.S, b.Sort))
 	}
+	if a.Sort == SBool {
+		switch {
+		case a.S == "true":
+			return b
+		case b.S == "true":
+			return a
+		case a.S == "false":
+			return Not(b)
+		case b.S == "false":
+			return Not(a)
+		}
+	}
 	return mk(SBool, "=", a, b)
 }
 
@@ -309,7 +321,7 @@ func Forall(vars []Term, body Term, patterns ...[]Term) Term {
 	return Term{b.String(), SBool}
 }
 
-func Exists(vars []Term, body Term) Term {
+func Exists(vars []Term, body Term, patterns ...[]Term) Term {
 	if len(vars) == 0 {
 		return body
 	}
@@ -319,7 +331,23 @@ func Exists(vars []Term, body Term) Term {
 		fmt.Fprintf(&b, "(%s %s)", v.S, v.Sort)
 	}
 	b.WriteString(") ")
-	b.WriteString(body.S)
+	if len(patterns) > 0 {
+		b.WriteString("(! ")
+		b.WriteString(body.S)
+		for _, p := range patterns {
+			b.WriteString(" :pattern (")
+			for i, t := range p {
+				if i > 0 {
+					b.WriteByte(' ')
+				}
+				b.WriteString(t.S)
+			}
+			b.WriteString(")")
+		}
+		b.WriteString(")")
+	} else {
+		b.WriteString(body.S)
+	}
 	b.WriteString(")")
 	return Term{b.String(), SBool}
 }
